@@ -447,6 +447,37 @@ def _describe(c):
     return d
 
 
+_MOD_REG = {"Adder": 0, "PhaseAdder": 0, "Multiplier": 0, "OutAdder": 2, "OutMultiplier": 2, "ModExp": 1}
+
+
+def _class_tag(c):
+    """configuration class used in violation keys (derived from the configuration only, never from the outcome)"""
+    t = c["t"]
+    lay = c["lay"][1:] if c["nc"] else c["lay"]
+    s = [len(r) for r in lay]
+    tags = []
+    if t in _MOD_REG or t == "OutPoly":
+        size = s[-2] if t == "OutPoly" else s[_MOD_REG[t]]
+        tags.append("mod=2^n" if c["mod"] == 2 ** size else "mod!=2^n")
+    if t in ("OutMultiplier", "SignedOutMultiplier", "OutSquare", "SignedOutSquare"):
+        tags.append("zeroed" if c["flag"] else "nonzeroed")
+    if t == "SignedOutMultiplier":
+        tags.append("out<n+m" if s[2] < s[0] + s[1] else "out>=n+m")
+        tags.append("work=min" if s[3] == (2 if c["flag"] else 2 * s[2] + 1) else "work>min")
+    if t == "Incrementer":
+        tags.append("work>=n-1" if s[1] + 1 >= s[0] + c["nc"] else "work<n-1")
+    if t == "OutPoly":
+        tags.append("const" if any(not any(m["e"]) for m in c["poly"]) else "noconst")
+        if lay[-1] and lay[-1][0] == 0:
+            tags.append("workwire0")
+    if t == "IntegerComparator":
+        tags.append("geq" if c["flag"] else "lt")
+        if c["k"] > 2 ** s[0]:
+            tags.append("L>2^n")
+    name = f"C({t})" if c["nc"] else t
+    return f"{name}[{','.join(tags)}]" if tags else name
+
+
 def _tlc_cfg(c):
     return {k: c[k] for k in ("t", "k", "mod", "flag", "cv", "poly", "nc", "wk", "lay", "N")}
 
@@ -508,11 +539,12 @@ def run(tier, seed):
         jobs.append((cid, c, ins, singles))
     jobs.sort(key=lambda j: -(len(j[2]) << j[1]["N"]))            # heavy ones first
     nproc = int(os.environ.get("VERIF_C56_PROCS", "8"))
-    results, cpu = {}, 0.0
+    results, cpu, cpus = {}, 0.0, {}
     with mp.get_context("fork").Pool(nproc) as pool:
         for cid, recs, t in pool.imap_unordered(run_config, jobs, chunksize=1):
             results[cid] = recs
             cpu += t
+            cpus[cid] = t
     traces, meta = [], []
     for cid, c in enumerate(cfgs):
         for rec in results[cid]:
@@ -585,8 +617,7 @@ def run(tier, seed):
                 samples.append({"config": _describe(c), "path": path, "input_registers": _decode(c, o["i"]),
                                 "output_registers": _decode(c, o["o"]), "verdict": v})
             continue
-        tname = ("C(%s)" % c["t"]) if c["nc"] else c["t"]
-        key = f"{tname}:{path}:{v}"
+        key = f"{_class_tag(c)}:{path}:{v}"
         bad = None
         for o in tr["obs"]:
             if o["o"] != exp.get(o["i"]) or o["st"] != "basis":
@@ -619,6 +650,8 @@ def run(tier, seed):
            "model_invariants": invs, "negative_controls_rejected": len(negs), "negative_controls_with_intended_clause": nneg,
            "outside_preconditions_raised": raised, "outside_preconditions_accepted_silently": silent,
            "replay_cpu_s": round(cpu, 1),
+           "slowest_configurations": [{"cpu_s": round(t, 1), "config": _class_tag(cfgs[i]), "N": cfgs[i]["N"], "inputs": tabs[i]["n"]}
+                                      for i, t in sorted(cpus.items(), key=lambda kv: -kv[1])[:5]],
            "tlc": {"gen_wall_s": round(g.wall_s, 1), "trace_wall_s": round(r.wall_s, 1)}}
     return CheckResult(coverage=cov, violations=viol, assumptions=[
         "default.qubit applies primitive gates correctly (C02/C26); amplitudes are discretised at 1e-6",
